@@ -3,6 +3,7 @@ package harness
 import (
 	"encoding/json"
 	"fmt"
+	"io"
 	"os"
 	"strings"
 	"sync"
@@ -24,10 +25,10 @@ type PCall struct {
 }
 
 type PStep struct {
-	Kind  string  `json:"kind"`            // call | repeat | burst
-	Call  int     `json:"call,omitempty"`  // index into Calls (call, repeat)
-	Burst [][]int `json:"burst,omitempty"` // per goroutine: indexes of earlier calls
-	Rounds int    `json:"rounds,omitempty"` // each goroutine repeats its batch this many times (default 1)
+	Kind   string  `json:"kind"`             // call | repeat | burst
+	Call   int     `json:"call,omitempty"`   // index into Calls (call, repeat)
+	Burst  [][]int `json:"burst,omitempty"`  // per goroutine: indexes of earlier calls
+	Rounds int     `json:"rounds,omitempty"` // each goroutine repeats its batch this many times (default 1)
 }
 
 type History struct {
@@ -114,6 +115,7 @@ func captureFDs() (restore func() string, err error) {
 	if err != nil {
 		return nil, err
 	}
+	os.Remove(f.Name()) // unlinked at once and read back through the descriptor: a killed run leaves nothing under /tmp
 	os.Stdout.Sync()
 	os.Stderr.Sync()
 	save1, err1 := syscall.Dup(1)
@@ -128,9 +130,9 @@ func captureFDs() (restore func() string, err error) {
 		syscall.Dup2(save2, 2)
 		syscall.Close(save1)
 		syscall.Close(save2)
-		data, _ := os.ReadFile(f.Name())
+		f.Seek(0, io.SeekStart)
+		data, _ := io.ReadAll(f)
 		f.Close()
-		os.Remove(f.Name())
 		return string(data)
 	}, nil
 }
